@@ -126,7 +126,7 @@ CHECKS = {
               "strided triples are replayed through the real harvest() with harvester instances, metadata files, side-car loaders and "
               "configured file-harvester pipelines as sources; the degenerate classes (partial of a factory's base model, field-less "
               "classes) are checked separately."),
-        technique="TLA+ merge algebra checked exhaustively by TLC + exported expected outcomes replayed on real partial models",
+        technique="TLA+ merge algebra checked exhaustively by TLC (value-independently also by Apalache) + exported expected outcomes replayed on real partial models and harvest pipelines",
         design="4/C14"),
     "C18": dict(
         text=("DirDiff.tla defines Reported(a,b) declaratively, the documented listing order and an applier machine whose steps are "
